@@ -1041,5 +1041,73 @@ func H_SM_wakewindow() {
 	vfCover("SM.wakewindow.end")
 }
 
+// ---------------------------------------------------------------------------------------------
+// C08 over the session model (late data under an unreleased read): a zero-copy read result is held
+// while the stream's sender closes the stream and data it flushed before the close arrives after
+// the close notification (socket-fallback data overtaken by the close while another stream keeps
+// the consumer working - the F-CLOSEOVERTAKE ordering), and other traffic allocates meanwhile.
+func (w *smWorld) sliceIsFree(dataOff int) bool {
+	for i := range w.bmB.lists {
+		l := w.bmB.lists[i]
+		off := *l.head
+		for k := 0; k < 8; k++ {
+			if int(l.bufferRegionOffsetInShm+off)+bufferHeaderSize == dataOff {
+				return true
+			}
+			if off+bufferHeaderSize > uint32(len(l.bufferRegion)) {
+				break
+			}
+			h := bufferHeader(l.bufferRegion[off : off+bufferHeaderSize])
+			if !h.hasNext() {
+				break
+			}
+			off = h.nextBufferOffset()
+		}
+	}
+	return false
+}
+
+func H_C08_late() {
+	w := smSetup()
+	w.open()
+	w.open()
+	w.send(0, true, []int{3, 9}[vfShape("first", 0, 1)])
+	w.deliverAB()
+	bs := w.b[0].stream
+	vfAssert(bs != nil, "C08.late.setup")
+	rd := vfShape("read", 1, 3)
+	r, err := bs.BufferReader().ReadBytes(rd) // zero-copy, not released
+	vfAssert(err == nil && len(r) == rd, "C08.read-len")
+	w.b[0].read += rd
+	dataOff := vfOffsetIn(r, w.mem)
+	vfAssert(dataOff >= 0, "C08.result-lives-in-shared-memory")
+	w.send(1, true, 3)  // the other stream: its polling event is on the wire
+	w.send(0, true, 25) // more than shared memory offers: socket fallback, behind it on the wire
+	w.closeEnd(0, true) // the close travels through the queue
+	if vfShape("order", 0, 1) == 0 {
+		w.deliverAB()
+	} else {
+		w.deliverOneAB()
+		w.deliverAB()
+	}
+	for j := 0; j < 3; j++ {
+		if j < rd {
+			vfAssert(r[j] == w.b[0].model[j], "C08.result-intact-until-release")
+		}
+	}
+	vfAssert(!w.sliceIsFree(dataOff), "C08.pinned-buffer-not-recycled-before-release")
+	// other traffic allocates and frees meanwhile
+	w.send(1, true, []int{3, 9}[vfShape("other", 0, 1)])
+	w.deliverAB()
+	for j := 0; j < 3; j++ {
+		if j < rd {
+			vfAssert(r[j] == w.b[0].model[j], "C08.result-intact-until-release")
+		}
+	}
+	bs.BufferReader().ReleasePreviousRead()
+	w.windDown()
+	vfCover("C08.late.end")
+}
+
 // the session model's queue memory is plain harness memory: nothing to unmap or unlink
 func vfstub_sm_qmUnmap(q *queueManager) {}
